@@ -24,6 +24,12 @@ VARIANTS = {
     'using': 'select * from int1.t1 as t join mindsdb.pred as m where {W} using Opt1 = 1, m.opt2 = \'x\'',
     'two-tables': 'select * from int1.t1 as t join int2.t2 as u on t.a = u.a join mindsdb.pred as m where {W}',
     'versioned-project-model': 'select * from int1.t1 as t join proj.pred2.4 as m where {W}',
+    'target-given-as-string': 'select * from int1.t1 as t join proj.pred3 as m where {W}',
+    'target-given-as-list': 'select * from int1.t1 as t join proj.pred4 as m where {W}',
+    'model-between-tables': 'select * from int1.t1 as t join mindsdb.pred as m join int2.t2 as u on u.a = t.a '
+                            'join int1.t3 as v on v.b = m.yy where {W}',
+    'model-between-tables-2': 'select * from int1.t1 as t join int2.t2 as u on u.a = t.a join mindsdb.pred as m '
+                              'join int1.t3 as v on v.b = u.c and v.c = m.zz where {W}',
 }
 
 
@@ -106,10 +112,47 @@ def _case(args):
             i = match_atom(c, False)
             if i is None:
                 if type(c).__name__ == 'BinaryOperation' and str(c.op).lower() == 'in':
-                    continue      # semi-join restriction (judged by C08)
+                    continue      # semi-join restriction: judged below against the ON clauses
                 unknown += 1
             else:
                 pushed.append(i)
+    # semi-join restrictions `col IN :Result(n)`: n must be a DISTINCT sub-select of col2 over the fetch of a table Y,
+    # and the query must contain the ON equality  <this table>.col = Y.col2  (never a model column)
+    on_eq = set()
+
+    def collect_on(o, path):
+        if type(o).__name__ == 'Join' and o.condition is not None:
+            for c in conjuncts(o.condition):
+                if type(c).__name__ == 'BinaryOperation' and str(c.op) == '=' and \
+                        all(type(x).__name__ == 'Identifier' and len(x.parts) == 2 for x in c.args):
+                    a_, b_ = [tuple(str(p).lower() for p in x.parts) for x in c.args]
+                    on_eq.add((a_, b_))
+                    on_eq.add((b_, a_))
+    walk_objects(parse_sql(sql, 'mindsdb'), collect_on)
+    alias_of_fetch = {}
+    for s_ in plan.steps:
+        if type(s_).__name__ == 'FetchDataframeStep' and getattr(s_, 'query', None) is not None:
+            ft = getattr(s_.query, 'from_table', None)
+            if type(ft).__name__ == 'Identifier':
+                al = ft.alias.parts[-1] if ft.alias is not None else ft.parts[-1]
+                alias_of_fetch[s_.step_num] = str(al).lower()
+    for s_ in plan.steps:
+        if type(s_).__name__ != 'FetchDataframeStep' or getattr(s_, 'query', None) is None:
+            continue
+        this = alias_of_fetch.get(s_.step_num)
+        for c in conjuncts(getattr(s_.query, 'where', None)):
+            if type(c).__name__ == 'BinaryOperation' and str(c.op).lower() == 'in' and type(c.args[1]).__name__ == 'Parameter':
+                ok = False
+                try:
+                    sub = plan.steps[int(c.args[1].value.step_num)]
+                    src = alias_of_fetch.get(int(sub.dataframe.step_num))
+                    col2 = str(sub.query.targets[0].parts[-1]).lower()
+                    col = str(c.args[0].parts[-1]).lower()
+                    ok = ((this, col), (src, col2)) in on_eq
+                except Exception:   # noqa
+                    ok = False
+                if not ok:
+                    unknown += 1
     rowdict, other = [], 0
     for a in applies:
         for k_, v in (a.row_dict or {}).items():
